@@ -204,7 +204,49 @@ func genClock(repo, out string) error {
 			_ = deferDepth
 		}
 	}
-	body := fmt.Sprintf("Definition gen_clock_sites : list (string * string * string * string) := [%s].\nDefinition gen_map_ranges : list (string * string * string) := [%s].\n",
+	// (c) package-level variables holding arbitrary-precision numbers (sdk.Int / sdk.Uint / sdk.Dec wrap a *big.Int, which
+	// Unmarshal and the in-place big.Int operations write through): a struct copy of such a variable shares the number with
+	// every application instance of the process, so one chain's state can leak into the next one's results
+	var globals []string
+	for _, n := range names {
+		if strings.HasSuffix(n, ".pb.go") || strings.HasSuffix(n, ".pb.gw.go") {
+			continue
+		}
+		for _, d := range files[n].Decls {
+			gd, ok := d.(*ast.GenDecl)
+			if !ok || gd.Tok != token.VAR {
+				continue
+			}
+			for _, sp := range gd.Specs {
+				vs, ok := sp.(*ast.ValueSpec)
+				if !ok {
+					continue
+				}
+				src := ""
+				if vs.Type != nil {
+					src += text(vs.Type) + " "
+				}
+				for _, v := range vs.Values {
+					src += text(v) + " "
+				}
+				numeric := false
+				for _, pat := range []string{"sdk.Int", "sdk.Uint", "sdk.Dec", "sdk.NewInt", "sdk.NewUint", "sdk.NewDec", "sdk.MustNewDec", "sdk.OneDec", "sdk.ZeroDec", "sdk.OneInt", "sdk.ZeroInt",
+					"sdk.OneUint", "sdk.ZeroUint", "sdk.SmallestDec", "big.Int", "big.NewInt", "big.NewFloat", "big.Rat", "big.NewRat", "sdk.Coin", "sdk.NewCoin", "sdk.DecCoin"} {
+					if strings.Contains(src, pat) {
+						numeric = true
+					}
+				}
+				if !numeric {
+					continue
+				}
+				for _, id := range vs.Names {
+					globals = append(globals, fmt.Sprintf("(%s, %s)", coqString(n), coqString(id.Name)))
+				}
+			}
+		}
+	}
+	body := fmt.Sprintf("Definition gen_numeric_globals : list (string * string) := [%s].\n", strings.Join(globals, ";\n  "))
+	body += fmt.Sprintf("Definition gen_clock_sites : list (string * string * string * string) := [%s].\nDefinition gen_map_ranges : list (string * string * string) := [%s].\n",
 		strings.Join(clock, ";\n  "), strings.Join(ranges, ";\n  "))
 	return writeV(out, "Clock.v", body)
 }
